@@ -41,6 +41,8 @@ pub struct DecodedMessage {
 
 pub struct StreamingDecoder {
     head_progress: usize,
+    // content-length found in the part of the head that has already been scanned
+    content_len: usize,
     parser: Parser,
 }
 
@@ -48,6 +50,7 @@ impl StreamingDecoder {
     pub fn new(parser: Parser) -> Self {
         Self {
             head_progress: 0,
+            content_len: 0,
             parser,
         }
     }
@@ -72,8 +75,6 @@ impl Decoder for StreamingDecoder {
 
         let mut parser = PullParser::new(src, self.head_progress);
 
-        let mut content_len = 0;
-
         for line in &mut parser {
             if let Ok(line) = line {
                 // try to find content-length field
@@ -85,12 +86,12 @@ impl Decoder for StreamingDecoder {
                         let value = split.next().ok_or(Error::Malformed)?;
                         let value = from_utf8(value)?;
 
-                        content_len = value
+                        self.content_len = value
                             .trim()
                             .parse::<usize>()
                             .map_err(|_| Error::Malformed)?;
 
-                        if content_len > (u16::MAX as usize) {
+                        if self.content_len > (u16::MAX as usize) {
                             return Err(Error::MessageTooLarge);
                         }
                     }
@@ -106,11 +107,14 @@ impl Decoder for StreamingDecoder {
         // message head should be complete
 
         // Calculate the complete message size
+        let content_len = self.content_len;
         let expected_complete_message_size = parser.head_end() + content_len;
 
         // if the message is not completely inside the buffer, allocate the rest
         // and return
         if src.len() < expected_complete_message_size {
+            // remember how far the head has been scanned, the lines before are not looked at again
+            self.head_progress = parser.progress();
             src.reserve(expected_complete_message_size - src.len());
             return Ok(None);
         }
@@ -127,6 +131,7 @@ impl Decoder for StreamingDecoder {
 
         // reset state
         self.head_progress = 0;
+        self.content_len = 0;
 
         // reset parser
         parser = PullParser::new(&src_bytes, 0);
